@@ -3,6 +3,8 @@
   recursion, of the strto* digit loop).  Property theorems are in Props.lean.
 -/
 import IgrisModel.C11.Model
+set_option linter.unusedSimpArgs false
+set_option linter.unusedVariables false
 namespace Igris.C11
 
 /-! ## bsearch -/
